@@ -517,7 +517,7 @@ pub(crate) mod util {
 /// absurdly nested brackets are refused with a diagnostic instead of overflowing the stack.
 const MAX_BRACKET_NESTING: usize = 128;
 
-/// Byte offset of the first `(` / `[` that is nested deeper than [`MAX_BRACKET_NESTING`],
+/// Byte offset of the first `(` / `[` / `{` that is nested deeper than [`MAX_BRACKET_NESTING`],
 /// ignoring string literals and comments.
 fn first_bracket_nested_too_deep(input_str: &str) -> Option<usize> {
     let bytes = input_str.as_bytes();
@@ -550,13 +550,13 @@ fn first_bracket_nested_too_deep(input_str: &str) -> Option<usize> {
                     i += 1;
                 }
             }
-            b'(' | b'[' => {
+            b'(' | b'[' | b'{' => {
                 depth += 1;
                 if depth > MAX_BRACKET_NESTING {
                     return Some(i);
                 }
             }
-            b')' | b']' => depth = depth.saturating_sub(1),
+            b')' | b']' | b'}' => depth = depth.saturating_sub(1),
             _ => (),
         }
         i += 1;
